@@ -2,11 +2,9 @@ CONSTANTS
  P = {"pa", "pb", "pc"}
  N = {"n1", "n2"}
  P0 = "pa"
- AllowAmb = FALSE
- MaxDepth = 4
+ AllowAmb = TRUE
+ MaxDepth = 10
 INIT GInit
 NEXT GNext
-VIEW View
-INVARIANT Inv
-ACTION_CONSTRAINT Emit
+INVARIANT EmitState
 CHECK_DEADLOCK FALSE
